@@ -17,6 +17,8 @@
             the model), 5 / 6 the type-level length written as an alias named `N` / `T` (ignored by the model); 3 generated program whose repeat operand is a path to a `const` item of
             the (non-Copy) element type: the operand is a ConstPath, nothing is logged for it
             10 box_arr![x; N] inside a fn generic over N (ignored by the model);
+            11 the FIRST element of a list form carries `#[cfg(any())]`: it is compiled out before the macro's
+            transcription is type-checked, so the invocation denotes the list without it (elements 1..count-1);
             8 every element is `unsafe { f(i) }` for an unsafe fn f and the program denies unused_unsafe
             (ignored by the model: accepted like the native literal); 9 every element is `f(i)` for an
             unsafe fn f with NO unsafe block: rejected like the native literal whenever an element
@@ -24,7 +26,7 @@
    element i is an expression that appends i to the log and yields 3 + 7*i.
    obs: Done -> 0 kind(0 GenericArray,1 Box) N::USIZE len values... loglen log...
         (log entry: tag of an evaluated expression, or -1-v for a clone of value v)
-        compile error -> 1 ; panic -> 2 ; UB in the model -> 3 *)
+        compile error -> 1 ; panic -> 2 ; UB in the model -> 3  (the harness reports 4 when the program was killed) *)
 From GA Require Import Base Codec Macros MacroDecls.
 Local Open Scope Z_scope.
 
@@ -75,7 +77,7 @@ Definition run_c20 (case : list Z) : list Z :=
     let isc := (form =? 1) || (form =? 4) || (form =? 5) || (form =? 11) in
     let cx := if isc then Const else Runtime in
     let x := if via =? 3 then ConstPath (val_of etype 0) else User 0 (val_of etype 0) isc in
-    let lst := InList (elems etype (znat count) isc) (znat trailing) in
+    let lst := InList (if via =? 11 then tl (elems etype (znat count) isc) else elems etype (znat count) isc) (znat trailing) in
     let go m i := enc_res etype (run crate_decls w cx m i) in
     let listform := (form =? 0) || (form =? 1) || (form =? 6) || (form =? 11) in
     if (via =? 9) && negb (listform && (count =? 0)) then [1] else
